@@ -2,7 +2,7 @@
 C13 — every operation keeps the refinement relation `R` between the drop model and the
 specification; the read shapes of related states agree.
 -/
-import OG.C13.Core
+import OG.C13.Parts
 
 namespace OG.C13
 open OG.C02
@@ -36,7 +36,7 @@ theorem write_R {st : St} {sp : Sp} (U : Univ) (h : R st sp) (b : List Row) :
   simp only [St.step, Sp.step, St.write]
   refine ⟨write_inv _ _ h.lay, by simpa [C02.St.write] using h.fixed, ?_⟩
   simp only [write_cells]
-  exact core_rows b h.core
+  exact (core_rows b h.core).flushRaw
 
 /-- layout-only operations. -/
 theorem layout_R {st : St} {sp : Sp} (h : R st sp) (lay' : C02.St) (hi : C02.Inv lay') (hf : lay'.fixed = true)
@@ -218,49 +218,84 @@ open OG.C02
 
 /-! ### the physical purge -/
 
-theorem purge_R {st : St} {sp : Sp} (U : Univ) (h : R st sp) : R (st.step U .purge) (sp.step U .purge) := by
-  simp only [St.step, Sp.step, St.purge]
-  refine ⟨h.lay, h.fixed, ?_⟩
-  have hc := h.core
-  have hsub : ∀ e, e ∈ st.idx.ents.filter (fun e => !st.idx.deleted.contains e.id) →
-      e ∈ st.idx.ents ∧ st.idx.visible e = true := by
-    intro e he
-    simpa [Idx.visible] using List.mem_filter.1 he
+/-- index entries of deleted tsids may be taken out of the index; when all of them are out, the
+deleted-tsid table on disk may be emptied. -/
+theorem Core.prune {ix : Idx} {cs : List Cell} {sp : Sp} (hc : Core ix cs sp) (keep : Ent → Bool)
+    (parts' : List Part) (dd : List Nat)
+    (hk : ∀ e ∈ ix.ents, ix.visible e = true → keep e = true)
+    (hd : dd = ix.delDisk ∨ (dd = [] ∧ ∀ e ∈ ix.ents, keep e = true → ix.visible e = true)) :
+    Core { ix with ents := ix.ents.filter keep, parts := parts', delDisk := dd } cs sp := by
+  have hsub : ∀ e, e ∈ ix.ents.filter keep → e ∈ ix.ents := fun e he => (List.mem_filter.1 he).1
   refine ⟨⟨hc.idx.nodup.filter _, ?_, ?_, ?_, ?_, ?_, ?_, hc.idx.bornLt⟩, hc.cellLt, ?_, ?_, ?_⟩
-  · intro e he; exact hc.idx.idLt e (hsub e he).1
-  · intro e1 h1 e2 h2 hq; exact hc.idx.idInj e1 (hsub e1 h1).1 e2 (hsub e2 h2).1 hq
+  · intro e he; exact hc.idx.idLt e (hsub e he)
+  · intro e1 h1 e2 h2 hq; exact hc.idx.idInj e1 (hsub e1 h1) e2 (hsub e2 h2) hq
   · intro e1 h1 e2 h2 hq hv1 hv2
-    exact hc.idx.uniq e1 (hsub e1 h1).1 e2 (hsub e2 h2).1 hq hv1 hv2
+    exact hc.idx.uniq e1 (hsub e1 h1) e2 (hsub e2 h2) hq hv1 hv2
   · intro id hid
     apply hc.idx.delLt id
-    simp only [List.not_mem_nil, false_or] at hid
-    grind
+    rcases hd with rfl | ⟨rfl, _⟩
+    · exact hid
+    · simp only [List.not_mem_nil, false_or] at hid
+      grind
   · intro e he
-    obtain ⟨hm, hv⟩ := hsub e he
-    have hnd : e.id ∉ st.idx.deleted := by simpa [Idx.visible] using hv
+    have hm := hsub e he
     have := hc.idx.delSync e hm
-    simp only [List.not_mem_nil, false_or]
-    constructor
-    · intro hd; exact absurd hd hnd
-    · intro hp; exact absurd (this.2 (Or.inr hp)) hnd
-  · intro e he; exact hc.idx.born e (hsub e he).1
-  · intro e he hv t f; exact hc.data e (hsub e he).1 hv t f
-  · intro kid hk t f
+    rcases hd with rfl | ⟨rfl, hd⟩
+    · exact this
+    · have hv := hd e hm (List.mem_filter.1 he).2
+      have hnd : e.id ∉ ix.deleted := by simpa [Idx.visible] using hv
+      simp only [List.not_mem_nil, false_or]
+      constructor
+      · intro hd'; exact absurd hd' hnd
+      · intro hp; exact absurd (this.2 (Or.inr hp)) hnd
+  · intro e he; exact hc.idx.born e (hsub e he)
+  · intro e he hv t f; exact hc.data e (hsub e he) hv t f
+  · intro kid hk' t f
     apply hc.none kid _ t f
     intro e he hkid
-    cases hv : st.idx.visible e
+    cases hv : ix.visible e
     · rfl
-    · have := hk e (List.mem_filter.2 ⟨he, by simpa [Idx.visible] using hv⟩) hkid
-      have hnd : e.id ∉ st.idx.deleted := by simpa [Idx.visible] using hv
-      exact absurd (by simpa [Idx.visible] using this) hnd
+    · have := hk' e (List.mem_filter.2 ⟨he, hk e he hv⟩) hkid
+      have hv' : ix.visible e = false := by simpa [Idx.visible] using this
+      rw [hv] at hv'; cases hv'
   · rw [hc.known]
     congr 1
-    show List.filter st.idx.visible st.idx.ents =
-      List.filter st.idx.visible (List.filter (fun e => !st.idx.deleted.contains e.id) st.idx.ents)
+    show List.filter ix.visible ix.ents = List.filter ix.visible (List.filter keep ix.ents)
     rw [List.filter_filter]
     apply List.filter_congr
-    intro e _
-    simp [Idx.visible]
+    intro e he
+    cases hv : ix.visible e
+    · simp
+    · simp [hk e he hv]
+
+theorem purge_R {st : St} {sp : Sp} (U : Univ) (h : R st sp) (hp : PartsOK st.idx) :
+    R (st.step U .purge) (sp.step U .purge) := by
+  simp only [St.step, Sp.step, St.purge]
+  split
+  · exact h
+  · refine ⟨h.lay, h.fixed, ?_⟩
+    apply h.core.prune
+    · intro e he hv
+      have hnd : e.id ∉ st.idx.deleted := by simpa [Idx.visible] using hv
+      obtain ⟨p, hpm, hi⟩ := hp.inPart e he
+      exact (purge_kept hp e).2 ⟨p, hpm, hi, Or.inr hnd⟩
+    · cases hr : purgeRefused st.idx.parts
+      · right
+        refine ⟨by simp, ?_⟩
+        intro e _ hk
+        obtain ⟨p, hpm, _, hc⟩ := (purge_kept hp e).1 hk
+        have hsel : p.selected = true := by
+          rw [purgeRefused_eq] at hr
+          have hnm : p.inMerge = false := by
+            cases hm : p.inMerge
+            · rfl
+            · have : st.idx.parts.any (·.inMerge) = true := List.any_eq_true.2 ⟨p, hpm, hm⟩
+              rw [hr] at this; cases this
+          simp [selected_eq, hnm, hp.noMark p hpm]
+        rcases hc with hc | hc
+        · rw [hsel] at hc; cases hc
+        · simpa [Idx.visible] using hc
+      · left; simp
 
 end OG.C13
 
@@ -293,11 +328,10 @@ theorem recover_R {st : St} {sp : Sp} (h : R st sp) (hp : st.idx.delPend = [])
     (hs : replayStable st = true) : R st.recover sp := by
   simp only [replayStable, Bool.and_eq_true, decide_eq_true_eq] at hs
   obtain ⟨hb, hi⟩ := hs
-  have hrec : st.recover = ⟨st.lay.reopen, [], { st.idx with deleted := st.idx.delDisk, delPend := [] }⟩ := by
+  have hrec : st.recover = ⟨st.lay.reopen, [], st.idx.restart.flushRaw⟩ := by
     unfold St.recover C02.St.reopen
     simp only []
-    generalize hr : resolveBatches { st.idx with deleted := st.idx.delDisk, delPend := [] }
-      (replayOrder st.lay.nParts st.kwal) = r at hb hi
+    generalize hr : resolveBatches st.idx.restart (replayOrder st.lay.nParts st.kwal) = r at hb hi
     obtain ⟨r1, r2⟩ := r
     simp only [] at hb hi
     subst hb hi
@@ -306,24 +340,24 @@ theorem recover_R {st : St} {sp : Sp} (h : R st sp) (hp : st.idx.delPend = [])
   obtain ⟨heq, hinv⟩ := reopen_equiv st.lay h.lay (Or.inl h.fixed)
   refine ⟨hinv, by rw [reopen_fixed]; exact h.fixed, ?_⟩
   have hc := h.core
-  have hcore0 : Core { st.idx with deleted := st.idx.delDisk, delPend := [] } st.lay.cells sp := by
-    refine hc.reidx (ix' := { st.idx with deleted := st.idx.delDisk, delPend := [] }) rfl rfl rfl ?_ ?_ ?_
+  have hcore0 : Core st.idx.restart st.lay.cells sp := by
+    refine hc.reidx (ix' := st.idx.restart) rfl rfl rfl ?_ ?_ ?_
     · intro e he
       have := hc.idx.delSync e he
       rw [hp] at this
       simp only [List.not_mem_nil, or_false] at this
-      simp only [Idx.visible, List.contains_eq_mem]
+      simp only [Idx.visible, Idx.restart, List.contains_eq_mem]
       by_cases h1 : e.id ∈ st.idx.deleted
       · simp [h1, this.1 h1]
       · have h2 : e.id ∉ st.idx.delDisk := fun hx => h1 (this.2 hx)
         simp [h1, h2]
     · intro id hid
       apply hc.idx.delLt id
-      simp only [List.not_mem_nil, or_false] at hid
+      simp only [Idx.restart, List.not_mem_nil, or_false] at hid
       grind
     · intro e _
-      simp
-  exact hcore0.congr heq (reopen_cells_mem st.lay h.lay h.fixed)
+      simp [Idx.restart]
+  exact hcore0.flushRaw.congr heq (reopen_cells_mem st.lay h.lay h.fixed)
 
 theorem reopen_R {st : St} {sp : Sp} (U : Univ) (h : R st sp) (hs : safeOp st .reopen = true) :
     R (st.step U .reopen) (sp.step U .reopen) := by
@@ -440,5 +474,27 @@ theorem dropMst_R {st : St} {sp : Sp} (U : Univ) (h : R st sp) (m : String) :
       show lookup _ (sp.cells.filter _) = none
       rw [hsf, hc.none kid hk t f]
       simp
+
+end OG.C13
+
+namespace OG.C13
+open OG.C02
+
+/-! ### merges of index parts -/
+
+theorem parts_R {st : St} {sp : Sp} (h : R st sp) (parts' : List Part) :
+    R { st with idx := { st.idx with parts := parts' } } sp :=
+  ⟨h.lay, h.fixed, h.core.reparts st.idx.raw parts'⟩
+
+theorem mbegin_R {st : St} {sp : Sp} (h : R st sp) (sel : List Nat) : R (st.mbegin sel) sp := parts_R h _
+theorem mend_R {st : St} {sp : Sp} (h : R st sp) : R st.mend sp := parts_R h _
+theorem imerge_R {st : St} {sp : Sp} (h : R st sp) (sel : List Nat) : R (st.imerge sel) sp :=
+  mend_R (mbegin_R h sel)
+theorem regroup_R {st : St} {sp : Sp} (h : R st sp) (gs : List (List Nat)) : R (st.regroup gs) sp := by
+  unfold St.regroup
+  simp only []
+  split
+  · exact parts_R h _
+  · exact h
 
 end OG.C13
